@@ -1,5 +1,12 @@
 import FqModel.Reasm
+import FqModel.Gopacket
 import Proofs.C19Reasm
+import Proofs.C19GpDefs
+import Proofs.C19GpSkip
+import Proofs.C19GpOverlap
+import Proofs.C19GpRun
+import Proofs.C19GpFlush
+import Proofs.C19GpIface
 /-!
   C19 — TCP streams and IPv4 datagrams are reassembled exactly.
   Model: FqModel/Reasm.lean; helper lemmas: Proofs/C19Reasm.lean.
@@ -10,11 +17,16 @@ import Proofs.C19Reasm
       `reasm_complete`, `reasm_complete_perm`, `reasm_prefix`, `reasm_perm`, `defrag_complete`;
     * fq's own code (`reassembledSG`) is proved to append exactly the chunks it is handed with skip ∈ {0,-1} and
       to add up the other skips (`sg_accounting`), for EVERY call sequence;
-    * gopacket's assembler is third-party code and is NOT proved anything about: what fq needs from it is stated
-      as the hypothesis `GopacketInterface` (in-order delivery, skips only in the final flush, everything
-      contiguous delivered before the first skip, everything queued behind a hole flushed) and
-      `sg_prefix_property` derives the property for fq's report from it; `sg_needs_flush_assumption` shows the
-      flush hypothesis cannot be dropped.  The correspondence run checks the hypothesis on recorded call traces.
+    * gopacket's assembler is third-party code; what fq needs from it is stated as `GopacketInterface` (in-order
+      delivery, skips only in the final flush, everything contiguous delivered before the first skip, everything
+      queued behind a hole flushed) and `sg_prefix_property` derives the property for fq's report from it;
+      `sg_needs_flush_assumption` shows the flush hypothesis cannot be dropped.  The core of the assembler is
+      transliterated in FqModel/Gopacket.lean and `GopacketInterface` is PROVED of the transliteration for every
+      arrival order, duplication and overlap inside a no-wrap window (`gopacket_check_overlap_spec`,
+      `gopacket_skip_only_in_flush`, `gopacket_delivers_in_order`, `gopacket_flush_spec`,
+      `gopacket_satisfies_interface(_nosyn)`), giving the end-to-end `fq_reassembly_correct`; with wrap-around it
+      fails (`gopacket_seq_wrap_witness`).  The correspondence run replays the recorded input of the real assembler
+      through the transliteration call by call, and still checks the interface predicates on the recorded calls.
     * five defects found by the correspondence run are pinned by evaluation (`seq_wrap_witness` for the one that
       remains, in gopacket; `defrag_length_regression`, `fsm_reorder_regression`, `pcapng_shb_section_regression`,
       `pcapng_section_length_regression`, `tcp_header_cut_regression` for those that have been fixed in /repo).
@@ -521,6 +533,229 @@ theorem pcapng_section_length_regression :
     blocksConsumed 460 224 [32, 92, 100] = 0 ∧ sectionEndsEarlyOld 460 100 = true ∧
     blocksConsumed 48 80 [48, 32] = 1 ∧ sectionEndsEarlyOld 48 32 = true ∧ sectionEndsEarlyOld 48 100 = false ∧
     blocksConsumed 0 224 [32, 92, 100] = 3 ∧ blocksConsumed 0 80 [48, 32] = 2 := by decide
+
+/-! ### gopacket's assembler, transliterated (FqModel/Gopacket.lean) -/
+
+section gopacket
+open FqModel.Gopacket Proofs.C19Gp
+
+/-- `gopacket_skip_only_in_flush` (first half, unconditional): whatever the state of the half connection and whatever
+    the packet — any sequence number, wrap-around included, any overlap — a call that `AssembleWithContext` makes into
+    `ReassembledSG` carries skip = 0.  Calls with skip ≠ 0 (−1 for a stream whose start was never seen, > 0 for a
+    hole) can therefore only come from `FlushAll`, which fq calls once, after the last packet. -/
+theorem gopacket_skip_only_in_flush (s2c : Bool) (h : Half α) (accept : Bool) (t : Pkt α) (c : SGCall α)
+    (hc : (assemble s2c h accept t).2 = some c) : c.skip = 0 :=
+  assemble_skip s2c h accept t c hc
+
+/-- the same for a whole run: no call made while packets arrive has a skip -/
+theorem gopacket_run_no_skip (s2c : Bool) (pkts : List (Bool × Pkt α)) :
+    ∀ (h : Half α), ∀ c ∈ (runHalf s2c h pkts).2, c.skip = 0 := by
+  induction pkts with
+  | nil => intro h c hc; simp [runHalf] at hc
+  | cons p rest ih =>
+    intro h c hc
+    obtain ⟨acc, t⟩ := p
+    simp only [runHalf, List.mem_append] at hc
+    rcases hc with hc | hc
+    · cases hr : (assemble s2c h acc t).2 with
+      | none => rw [hr] at hc; simp at hc
+      | some c' =>
+        rw [hr] at hc
+        simp only [List.mem_singleton] at hc
+        rw [hc]
+        exact assemble_skip s2c h acc t c' hr
+    · exact ih _ c hc
+
+/-- `checkOverlap` — the part of the assembler that handles out-of-order, overlapping and retransmitted segments —
+    meets its specification inside every window of sequence numbers that does not wrap (`NoWrap`): on a sorted
+    queue of pages that are slices of the sent stream it keeps the queue sorted, non-overlapping and content-correct
+    and changes the set of queued sequence numbers by exactly the segment's range (added when the segment is
+    queued, removed when the segment is delivered), for every overlap pattern. -/
+theorem gopacket_check_overlap_spec : CheckOverlapSpec α := checkOverlap_spec
+
+/-- `gopacket_delivers_in_order`: one direction of a connection, sent stream `sent` whose byte 0 has sequence number
+    `s0` (= ISN+1), inside a window of sequence numbers that does not wrap (`Win`: `NoWrap lo hi`, ISN ≥ lo,
+    s0+|sent|+1 ≤ hi).  The packets (`GoodPkt`: a SYN at the ISN, segments whose payload is the slice of `sent` at their
+    sequence number, FIN/RST only on a segment that ends the stream) arrive in ANY order, any number of times, with
+    ANY overlaps, each with the answer of fq's `Accept` (a rejected packet is ignored).  Then the calls the
+    transliterated assembler makes while the packets arrive all have skip 0 and their data, concatenated, is
+    exactly `sent[0, d)`, where — once an accepted SYN was seen — `d` is the first sequence offset that no accepted
+    segment covers (`prefixEnd` of the reference over the accepted segments): the sent stream up to the first
+    never-filled hole.  Without a SYN nothing is delivered before the flush.
+    The statement WITH wrap-around is false: `gopacket_seq_wrap_witness`. -/
+theorem gopacket_delivers_in_order {sent : List α} {s0 lo hi : Int} (w : Win sent s0 lo hi) (s2c : Bool)
+    (pkts : List (Bool × Pkt α)) (hgood : ∀ x ∈ pkts, GoodPkt sent s0 x.2) :
+    ∃ d, d ≤ sent.length ∧
+      (∀ c ∈ (traceOf s2c pkts).1, c.skip = 0) ∧
+      (((traceOf s2c pkts).1.map (·.data)).flatten = sent.take d) ∧
+      (synSeen pkts = true → prefixEnd (segsOf s0 pkts) 0 = d ∧
+        (beyond (segsOf s0 pkts) d = true ↔
+          ((runHalf s2c {} pkts).1.closed = false ∧ (runHalf s2c {} pkts).1.pages ≠ []))) ∧
+      (synSeen pkts = false → (traceOf s2c pkts).1 = []) := by
+  obtain ⟨d, hd, st, sk, dat, no⟩ := Proofs.C19Gp.gopacket_delivers_in_order checkOverlap_spec w s2c pkts hgood
+  refine ⟨d, hd, sk, dat, ?_, no⟩
+  intro hs
+  rw [hs] at st
+  exact ⟨prefixEnd_of_St pkts hgood st, beyond_of_St pkts hgood st⟩
+
+/-- `gopacket_skip_only_in_flush` (second half) and what the flush delivers: `FlushAll` on a half connection in a
+    state the run can reach (not closed, sorted queue of pages that are slices of `sent`, every page strictly behind
+    a known `nextSeq`) makes one call per maximal run of contiguous pages; every call has a skip — −1 for the first
+    one iff the start of the stream was never seen, the positive gap before the run otherwise —, the chunks carry
+    the sent bytes at their places in stream order (`Delivers`), calls are made iff pages are queued, the skips fit
+    32 bits and add up to at most |sent|, and the half ends closed. -/
+theorem gopacket_flush_spec {sent : List α} {s0 lo hi : Int} (s2c : Bool) (h : Half α)
+    (hw : NoWrap lo hi) (hlo : lo ≤ s0 - 1) (hhi : s0 + sent.length + 1 ≤ hi)
+    (hc : h.closed = false) (hs : SortedPages h.pages) (hok : PagesOK sent s0 h.pages)
+    (hn : h.nextSeq = -1 ∨ (s0 ≤ h.nextSeq ∧ h.nextSeq ≤ s0 + sent.length ∧ ∀ p ∈ h.pages, h.nextSeq < p.seq)) :
+    ((flushHalf s2c h).2 = [] ↔ h.pages = []) ∧
+    (h.nextSeq ≠ -1 → ∀ c ∈ (flushHalf s2c h).2, 0 < c.skip) ∧
+    (h.nextSeq = -1 → ∀ c0 rest, (flushHalf s2c h).2 = c0 :: rest → c0.skip = -1 ∧ ∀ c ∈ rest, 0 < c.skip) ∧
+    Delivers sent (Proofs.C19GpFlush.pos0 s0 h) ((flushHalf s2c h).2.map fun c => (c.skip, c.data)) ∧
+    (∀ c ∈ (flushHalf s2c h).2, c.skip < 4294967296) ∧
+    (((flushHalf s2c h).2.filter (fun c => c.skip > 0)).map (fun c => c.skip.toNat)).sum ≤ sent.length ∧
+    (flushHalf s2c h).1.closed = true :=
+  ⟨Proofs.C19GpFlush.flush_nil_iff s2c h hw hlo hhi hc hs hok hn,
+   Proofs.C19GpFlush.flush_skip_pos s2c h hw hlo hhi hc hs hok hn,
+   fun he c0 rest hcs => Proofs.C19GpFlush.flush_skip_first s2c h hw hlo hhi hc hs hok hn he c0 rest hcs,
+   Proofs.C19GpFlush.flush_delivers s2c h hw hlo hhi hc hs hok hn,
+   Proofs.C19GpFlush.flush_skip_lt s2c h hw hlo hhi hc hs hok hn,
+   Proofs.C19GpFlush.flush_skip_sum s2c h hw hlo hhi hc hs hok hn,
+   Proofs.C19GpFlush.flush_closed s2c h hw hlo hhi hc hs hok hn⟩
+
+/-- non-vacuity of `gopacket_flush_spec`: a page two bytes behind a known `nextSeq` is flushed with skip 2 -/
+example :
+    let sent : List Nat := [10, 11, 12, 13, 14, 15]
+    let h : Half Nat := { nextSeq := 102, pages := [⟨104, [14, 15], false⟩] }
+    NoWrap 99 200 ∧ h.closed = false ∧ SortedPages h.pages ∧ PagesOK sent 100 h.pages ∧
+    ((100 : Int) ≤ h.nextSeq) ∧ (∀ p ∈ h.pages, h.nextSeq < p.seq) ∧
+    (flushHalf false h).2 = [⟨false, false, false, 2, [14, 15]⟩] := by
+  refine ⟨by unfold NoWrap; omega, rfl, by simp [SortedPages], ?_, by decide, by simp, by decide⟩
+  intro p hp
+  simp only [List.mem_singleton] at hp
+  subst hp
+  refine ⟨⟨by decide, by simp, by simp, by decide⟩, by simp [StopOK]⟩
+
+/-- non-vacuity of the hypotheses: ISN 99, six bytes, SYN, a segment, an overlapping one out of order, a duplicate, FIN -/
+example : Win [10, 11, 12, 13, 14, 15] 100 99 200 ∧
+    (∀ x ∈ ([(true, ⟨99, true, false, false, []⟩), (true, ⟨103, false, false, false, [13, 14]⟩),
+        (true, ⟨100, false, false, false, [10, 11, 12, 13]⟩), (false, ⟨100, false, false, false, [10]⟩),
+        (true, ⟨104, false, true, false, [14, 15]⟩)] : List (Bool × Pkt Nat)), GoodPkt [10, 11, 12, 13, 14, 15] 100 x.2) := by
+  refine ⟨⟨by unfold NoWrap; omega, by omega, by simp⟩, ?_⟩
+  intro x hx
+  simp only [List.mem_cons, List.not_mem_nil, or_false] at hx
+  rcases hx with rfl | rfl | rfl | rfl | rfl <;> simp [GoodPkt]
+
+
+/-- the accepted segments are slices of the sent stream -/
+theorem segsOf_slices {sent : List α} {s0 : Int} (pkts : List (Bool × Pkt α))
+    (hgood : ∀ x ∈ pkts, GoodPkt sent s0 x.2) : Slices sent (segsOf s0 pkts) := by
+  intro g hg
+  unfold segsOf at hg
+  obtain ⟨x, hx, rfl⟩ := List.mem_map.mp hg
+  obtain ⟨hx1, hx2⟩ := List.mem_filter.mp hx
+  simp only [Bool.and_eq_true, Bool.not_eq_true', List.isEmpty_eq_false_iff] at hx2
+  have hsy : x.2.syn = false := by
+    cases hs : x.2.syn with
+    | true => exact absurd ((hgood x hx1).1 hs).2 hx2.2
+    | false => rfl
+  have := ((hgood x hx1).2.1 hsy).2.2
+  rw [this]
+  exact isSlice_mk' sent _ _ rfl _
+
+/-- `gopacket_satisfies_interface`: the interface assumption of `sg_prefix_property` is a THEOREM about the
+    transliterated assembler.  One direction whose SYN is among the accepted packets (base 0), any arrival order,
+    duplication and overlap of good packets inside a no-wrap window: the calls made while the packets arrive
+    (`pre`) and the calls of the single final `FlushAll` (`post`) satisfy `GopacketInterface` relative to the accepted
+    segments — in-order delivery, skips only in the flush, everything contiguous delivered before, everything queued
+    behind a hole flushed, skips fit. -/
+theorem gopacket_satisfies_interface {sent : List α} {s0 lo hi : Int} (w : Win sent s0 lo hi) (s2c : Bool)
+    (pkts : List (Bool × Pkt α)) (hgood : ∀ x ∈ pkts, GoodPkt sent s0 x.2) (hsyn : synSeen pkts = true) :
+    GopacketInterface sent (segsOf s0 pkts) 0 (traceOf s2c pkts).1 (traceOf s2c pkts).2 :=
+  let h := Proofs.C19GpIface.iface_syn w s2c pkts hgood hsyn
+  ⟨h.delivers, h.flushOnly, h.exhausts, h.flushes, h.goInt, h.small⟩
+
+/-- the same for a direction whose SYN is not in the capture (or was rejected): nothing is delivered before the
+    flush; the flush's first call (skip −1) is `pre`, the rest `post`, and `base` is the lowest captured stream
+    offset (covered, nothing captured below it) — the base the reference uses for a capture without SYN. -/
+theorem gopacket_satisfies_interface_nosyn {sent : List α} {s0 lo hi : Int} (w : Win sent s0 lo hi) (s2c : Bool)
+    (pkts : List (Bool × Pkt α)) (hgood : ∀ x ∈ pkts, GoodPkt sent s0 x.2) (hsyn : synSeen pkts = false) :
+    (traceOf s2c pkts).1 = [] ∧
+    (((traceOf s2c pkts).2 = [] ∧ ∀ base, GopacketInterface sent (segsOf s0 pkts) base [] []) ∨
+     ∃ base c0 post, (traceOf s2c pkts).2 = c0 :: post ∧ c0.skip = -1 ∧
+        covered (segsOf s0 pkts) base = true ∧ (∀ i, i < base → covered (segsOf s0 pkts) i = false) ∧
+        GopacketInterface sent (segsOf s0 pkts) base [c0] post) := by
+  obtain ⟨h1, h2⟩ := Proofs.C19GpIface.iface_nosyn w s2c pkts hgood hsyn
+  refine ⟨h1, ?_⟩
+  rcases h2 with ⟨_, h3, h4⟩ | ⟨base, c0, post, e, sk, cv, lo', h⟩
+  · exact Or.inl ⟨h3, fun base => let h := h4 base; ⟨h.delivers, h.flushOnly, h.exhausts, h.flushes, h.goInt, h.small⟩⟩
+  · exact Or.inr ⟨base, c0, post, e, sk, cv, lo', ⟨h.delivers, h.flushOnly, h.exhausts, h.flushes, h.goInt, h.small⟩⟩
+
+/-- `fq_reassembly_correct` (end to end, no hypothesis about gopacket left): fq's `ReassembledSG` accounting run over
+    the calls of the transliterated assembler — packets of one direction with its SYN captured, arriving in any order
+    with any duplicates and overlaps, then the single flush — ends with Buffer = the sent stream up to the first
+    byte no accepted segment carries (`d = prefixEnd` of the reference), and SkippedBytes > 0 iff some accepted segment
+    lies beyond that byte.  Inside the modelled fragment: sequence numbers that do not wrap (`Win`), consistent
+    contents, SYN without payload, FIN/RST only at the stream's end (`GoodPkt`), gopacket's default options (no
+    buffering limits, no timeout flushes), `Accept` = the recorded answers.  Outside: see FqModel/Gopacket.lean. -/
+theorem fq_reassembly_correct {sent : List α} {s0 lo hi : Int} (w : Win sent s0 lo hi) (s2c : Bool)
+    (pkts : List (Bool × Pkt α)) (hgood : ∀ x ∈ pkts, GoodPkt sent s0 x.2) (hsyn : synSeen pkts = true)
+    (dir : Dir α) (hd : dir.buffer = [] ∧ dir.skippedBytes = 0) :
+    ∃ d, d ≤ sent.length ∧ prefixEnd (segsOf s0 pkts) 0 = d ∧
+      (((traceOf s2c pkts).1 ++ (traceOf s2c pkts).2).foldl sgDir dir).buffer = sent.take d ∧
+      (0 < (((traceOf s2c pkts).1 ++ (traceOf s2c pkts).2).foldl sgDir dir).skippedBytes % 18446744073709551616 ↔
+        beyond (segsOf s0 pkts) d = true) := by
+  obtain ⟨d, hd', _, _, hp, _⟩ := gopacket_delivers_in_order w s2c pkts hgood
+  have hpe := (hp hsyn).1
+  have hs := segsOf_slices pkts hgood
+  have hI := gopacket_satisfies_interface w s2c pkts hgood hsyn
+  have := sg_prefix_property sent (segsOf s0 pkts) 0 _ _ hs (by rw [hpe]; exact hd') hI dir hd
+  obtain ⟨p1, p2, p3⟩ := prefixEnd_spec (segsOf s0 pkts) 0
+  rw [reasmFrom_slices sent (segsOf s0 pkts) 0 _ hs p1 (by rw [hpe]; exact hd') p2 p3, hpe] at this
+  refine ⟨d, hd', hpe, ?_, ?_⟩
+  · simpa using this.1
+  · simpa using this.2
+
+/-- `fq_reassembly_correct` on a concrete history: SYN, then the tail, a duplicate, the overlapping head out of order,
+    a segment behind a hole: fq's buffer is the six contiguous bytes, three skipped -/
+example :
+    let mk := fun (seq : Int) (d : List Nat) (syn : Bool) => ((true, ⟨seq, syn, false, false, d⟩) : Bool × Pkt Nat)
+    let pkts := [mk 99 [] true, mk 103 [13, 14, 15] false, mk 103 [13, 14, 15] false, mk 100 [10, 11, 12, 13] false,
+      mk 109 [19] false]
+    ((((traceOf false pkts).1 ++ (traceOf false pkts).2).foldl sgDir ({} : Dir Nat)).buffer = [10, 11, 12, 13, 14, 15]) ∧
+    ((((traceOf false pkts).1 ++ (traceOf false pkts).2).foldl sgDir ({} : Dir Nat)).skippedBytes = 3) ∧
+    synSeen pkts = true := by decide
+
+/-- known finding `seq-wrap`, now as a theorem about the transliterated assembler: the exact statement WITH wrap
+    fails.  ISN 2^32−3, 8 bytes sent, the segment captured twice: the retransmission's last byte is delivered again
+    (9 bytes for 8 sent); a one-byte hole at sequence number 2^32−1 is glued over (bytes 0,1 then 3,4,5 delivered as
+    contiguous, nothing left for the flush).  The same packets 1000 sequence numbers below the wrap are handled
+    correctly (8 bytes; the hole is reported by the flush with skip 1). -/
+theorem gopacket_seq_wrap_witness :
+    let mk := fun (seq : Int) (d : List Nat) (syn : Bool) => ((true, ⟨seq, syn, false, false, d⟩) : Bool × Pkt Nat)
+    traceOf false [mk 4294967293 [] true, mk 4294967294 [0, 1, 2, 3, 4, 5, 6, 7] false, mk 4294967294 [0, 1, 2, 3, 4, 5, 6, 7] false]
+      = ([⟨false, true, false, 0, []⟩, ⟨false, false, false, 0, [0, 1, 2, 3, 4, 5, 6, 7]⟩, ⟨false, false, false, 0, [7]⟩], []) ∧
+    traceOf false [mk 1000 [] true, mk 1001 [0, 1, 2, 3, 4, 5, 6, 7] false, mk 1001 [0, 1, 2, 3, 4, 5, 6, 7] false]
+      = ([⟨false, true, false, 0, []⟩, ⟨false, false, false, 0, [0, 1, 2, 3, 4, 5, 6, 7]⟩], []) ∧
+    traceOf false [mk 4294967293 [] true, mk 4294967294 [0, 1] false, mk 0 [3, 4, 5] false]
+      = ([⟨false, true, false, 0, []⟩, ⟨false, false, false, 0, [0, 1]⟩, ⟨false, false, false, 0, [3, 4, 5]⟩], []) ∧
+    traceOf false [mk 1000 [] true, mk 1001 [0, 1] false, mk 1004 [3, 4, 5] false]
+      = ([⟨false, true, false, 0, []⟩, ⟨false, false, false, 0, [0, 1]⟩], [⟨false, false, false, 1, [3, 4, 5]⟩]) := by
+  decide
+
+/-- non-vacuity: out of order, overlapping and duplicated segments after a SYN, with a hole; and a stream without SYN
+    (everything waits for the flush, first chunk skip −1) -/
+example :
+    let mk := fun (seq : Int) (d : List Nat) (syn : Bool) => ((true, ⟨seq, syn, false, false, d⟩) : Bool × Pkt Nat)
+    traceOf false [mk 100 [] true, mk 104 [3, 4, 5] false, mk 103 [2, 3] false, mk 101 [0, 1] false, mk 110 [9, 10] false,
+        mk 109 [8, 9, 10, 11] false]
+      = ([⟨false, true, false, 0, []⟩, ⟨false, false, false, 0, [0, 1, 2, 3, 4, 5]⟩], [⟨false, false, false, 2, [8, 9, 10, 11]⟩]) ∧
+    traceOf false [mk 104 [3, 4, 5] false, mk 101 [0, 1] false, mk 103 [2, 3] false]
+      = ([], [⟨false, false, false, -1, [0, 1, 2, 3, 4, 5]⟩]) := by decide
+
+example : NoWrap 99 200 := by unfold NoWrap; omega
+
+end gopacket
 
 /-! ### non-vacuity -/
 
